@@ -17,7 +17,7 @@ func init() {
 		DoesNotCover: "That every id a deletion function receives at run time is unreferenced (a property of histories) is not decided; crash points are not enumerated (C08).",
 	}, runC10)
 	register("C11", propMeta{
-		Explanation:  "Decides that every artifact class a transaction stages has an undo and that logs are removed on every terminal path: (R1) the undo table (shared with C07.R1): every persistent commit step has a guarded undo block calling the matching undo function in the live rollback and in the dead-transaction log replay; (R2) partial steps (shared with C07.R2); (R3) transaction logs are removed on every terminal path - rollback, cleanup, log replay (shared with C07.R4) - and the priority log is removed after a successful commit and by the live rollback once it may have been written; (R4) obsolete data is actually handed to deletion after a commit: cleanup passes getToBeObsoleteEntries() to deleteObsoleteEntries and getObsoleteTrackedItemsValues() to deleteTrackedItemsValues, and the functions that only BUILD log payloads do not consume the deletion queue that a later step reads. (R5) Undo discoverability, derived from the undo functions: rollbackUpdatedNodes finds the blobs it deletes through the inactive ids recorded in the registry, so commitUpdatedNodes must record them in the registry before, and only if that succeeded then, write the blobs. (R6) every step is announced (logged) before it acts, on first and repeated execution (shared with C08.R1): the rollback decides from the announced step whether the previous step's artifacts must be removed.",
+		Explanation:  "Decides that every artifact class a transaction stages has an undo and that logs are removed on every terminal path: (R1) the undo table (shared with C07.R1): every persistent commit step has a guarded undo block calling the matching undo function in the live rollback and in the dead-transaction log replay; (R2) partial steps (shared with C07.R2); (R3) transaction logs are removed on every terminal path - rollback, cleanup, log replay (shared with C07.R4) - and the priority log is removed after a successful commit and by the live rollback once it may have been written; (R4) obsolete data is actually handed to deletion after a commit: cleanup passes getToBeObsoleteEntries() to deleteObsoleteEntries and getObsoleteTrackedItemsValues() to deleteTrackedItemsValues, and the functions that only BUILD log payloads do not consume the deletion queue that a later step reads. (R5) Undo discoverability, derived from the undo functions: rollbackUpdatedNodes finds the blobs it deletes through the inactive ids recorded in the registry, so commitUpdatedNodes must record them in the registry before, and only if that succeeded then, write the blobs. (R6) every step is announced (logged) before it acts, on first and repeated execution (shared with C08.R1): the rollback decides from the announced step whether the previous step's artifacts must be removed. (R7) a removed item's value blob is queued for deletion whatever its fetch state (known finding F39a); (R8) the deletion queue is not cleared by the log-payload getters (known finding F39b, shared with C07.R11).",
 		DoesNotCover: "Comparing the blob store / registry contents with the reachable set is a runtime matter and is not decided.",
 	}, runC11)
 }
